@@ -48,3 +48,19 @@ func VerifOptimize(insts []byte, srcMap map[int]parser.Pos, node parser.Node) (o
 	c.optimizeFunc(node)
 	return c.scopes[0].Instructions, c.scopes[0].SourceMap, nil
 }
+
+// VerifOptInput, when non-nil, receives a copy of the instructions and source
+// map optimizeFunc is about to process.
+var VerifOptInput func(insts []byte, srcMap map[int]parser.Pos, node parser.Node)
+
+func verifOptInput(c *Compiler, node parser.Node) {
+	if VerifOptInput == nil {
+		return
+	}
+	sc := c.scopes[c.scopeIndex]
+	sm := make(map[int]parser.Pos, len(sc.SourceMap))
+	for k, v := range sc.SourceMap {
+		sm[k] = v
+	}
+	VerifOptInput(append([]byte{}, sc.Instructions...), sm, node)
+}
